@@ -18,6 +18,7 @@ import (
 	"time"
 
 	"github.com/google/martian/v3"
+	"github.com/google/martian/v3/trafficshape"
 	"pgregory.net/rapid"
 
 	"verifharness/internal/kit"
@@ -47,6 +48,8 @@ type Case struct {
 	// Downstream: blind CONNECTs go through a downstream proxy; "credentials"
 	// configures it with user:password in its URL.
 	Downstream string `json:"downstream,omitempty"`
+	// Shaped: the proxy is served on a trafficshape.Listener without shapes.
+	Shaped bool `json:"shaped,omitempty"`
 }
 
 // connectProxy is a minimal downstream CONNECT proxy: 200, then splice.
@@ -383,7 +386,11 @@ func runOnce(c Case, T time.Duration) (v kit.Verdict) {
 	}
 	// A proxy has one MITM setting; blind tunnels and MITM tunnels therefore
 	// never share a case (the generator guarantees it).
-	pr := netkit.Start(p, nil)
+	var wrap func(net.Listener) net.Listener
+	if c.Shaped {
+		wrap = func(l net.Listener) net.Listener { return trafficshape.NewListener(l) }
+	}
+	pr := netkit.Start(p, wrap)
 	stopped := false
 	defer func() {
 		if !stopped {
@@ -803,6 +810,7 @@ func genCase(t *rapid.T) Case {
 	var c Case
 	c.CloneRT = rapid.IntRange(0, 3).Draw(t, "clone_rt") == 0
 	c.MultilineErrors = rapid.Bool().Draw(t, "multiline_errors")
+	c.Shaped = rapid.IntRange(0, 4).Draw(t, "shaped") == 0
 	if family == "blind" && rapid.Bool().Draw(t, "via_downstream") {
 		c.Downstream = rapid.SampledFrom([]string{"plain", "credentials"}).Draw(t, "downstream")
 	}
@@ -883,6 +891,9 @@ func classes(c Case) []string {
 	}
 	if c.MultilineErrors {
 		set["multiline-errors"] = true
+	}
+	if c.Shaped {
+		set["traffic-shaped-listener"] = true
 	}
 	var out []string
 	for k := range set {
